@@ -65,11 +65,13 @@ def check_case(spec, inst, res, keep=None):
     from maltoolbox.model import AttackerAttachment
     att = AttackerAttachment(name='att')
     for a in m.assets[:3]:
-        steps = [n.name for n in g1.nodes if n.asset is a][:2]
+        steps = sorted([n.name for n in g1.nodes if n.asset is a][:3], reverse=True)      # not in alphabetical order
         for st in steps: att.add_entry_point(a, st)
     m.add_attacker(att)
+    with_att = json.dumps(m._to_dict(), sort_keys=True, default=str)
     ga = AttackGraph(lg, m); gb = AttackGraph(lg, m)
     ga.attach_attackers()
+    if json.dumps(m._to_dict(), sort_keys=True, default=str) != with_att: probs.append('generation / attaching the attackers modified the serialized model')
     if keep is not None:
         keep['att'] = [att.id, att.name, [[int(a.id), list(sts)] for a, sts in att.entry_points]]
         keep['attached'] = dict(graph_obs(ga), attackers=[{'id': a.id, 'name': a.name, 'entry_points': [n.id for n in a.entry_points],
